@@ -211,6 +211,9 @@ def gen(rng, zero=False, focus=None, negative=False):
             nxt = cur + 1
         if len(set(vals)) != len(vals):
             return None                 # E0081
+        if nvar == 1 and not repr_c and repr_int is None and chance(rng, 0.5) and \
+                sum(1 for f in variants[0].fields if 'PhantomData' not in f.ty) == 1:
+            attrs.insert(rng.randrange(len(attrs) + 1), Attr('repr', repr_=('idents', [I('transparent')])))
         ids = ([I('C')] if repr_c else []) + ([I(repr_int)] if repr_int else [])
         rng.shuffle(ids)
         if len(ids) == 2 and chance(rng, 0.35):
